@@ -20,3 +20,20 @@ Definition run_mpo_apply (a : sx) : sx :=
            L [A (propP Z 0 Z.add Z.mul d 1 1 (kronv Z Z.mul 1 one_vec one_vec) c s 0%nat);
               A (applied Z 0 Z.add Z.mul d 1 1 one_vec one_vec c s 0%nat)])
         (dList (fun x => x) (dNth a 2)).
+
+(* 102: entry of the product MPO.MPO. arg: (d sites pairs) with sites = ((dw1 dw2 W1 W2) ...), W1 = [s][t] matrices, W2 = [t][s'] matrices,
+   pairs = ((sigma sigma') ...) -> per pair (entry of the product chain built by the model, nested-sum form of operator times operator) *)
+Definition dSite2 (e : sx) : osite2 Z :=
+  let W1 := dList (dList dZss) (dNth e 2) in
+  let W2 := dList (dList dZss) (dNth e 3) in
+  {| dw1 := dN (dNth e 0); dw2 := dN (dNth e 1);
+     W1m := fun s t => zget2 (nth t (nth s W1 []) []);
+     W2m := fun t s' => zget2 (nth s' (nth t W2 []) []) |}.
+Definition run_mpo_mpo (a : sx) : sx :=
+  let d := dN (dNth a 0) in
+  let c := dList dSite2 (dNth a 1) in
+  sList (fun pr => let s := dList dN (dNth pr 0) in let s' := dList dN (dNth pr 1) in
+           let z := zip_sites Z c s' in
+           L [A (propP Z 0 Z.add Z.mul d 1 1 (kronv Z Z.mul 1 one_vec one_vec) z s 0%nat);
+              A (applied Z 0 Z.add Z.mul d 1 1 one_vec one_vec z s 0%nat)])
+        (dList (fun x => x) (dNth a 2)).
